@@ -15,7 +15,9 @@ RULE = ("case = generated enum (12 reprs, 1..700 variants, 1..9 runs, anchors at
         "declaration order and literal spelling) x generated legal configuration with try_from, TryFrom, into, Into "
         "forced on and random co-features; inputs = exhaustive in-probe sweep of the whole repr for 8/16-bit reprs, "
         "else every discriminant (sampled above 64), both neighbours of every run boundary, hole midpoints, "
-        "type limits, power-of-two edges and PRNG values over the full repr range. Oracle = reference model. "
+        "type limits, power-of-two edges, aliases of discriminants modulo 2^8/16/32/64 and PRNG values over the full repr "
+        "range; plus a deterministic limits matrix: per repr, gapless and two-run enums whose MAX / MIN sits exactly on "
+        "the limit of every (possibly narrower) integer type that fits. Oracle = reference model. "
         "non-trivial = enum the pinned suite cannot express: repr != i8, or a negative value, or MIN != 0, or >= 3 "
         "runs, or touching a type limit; distinct by (repr, discriminant set, configuration)")
 
@@ -29,7 +31,56 @@ def cases(draw, tier="quick"):
     return {"spec": spec, "cfg": cfg, "seed": draw(st.integers(0, 2 ** 31))}
 
 
+NARROW_LIMITS = [2 ** 7 - 1, 2 ** 8 - 1, 2 ** 15 - 1, 2 ** 16 - 1, 2 ** 31 - 1, 2 ** 32 - 1, 2 ** 63 - 1,
+                 -2 ** 7, -2 ** 15, -2 ** 31, -2 ** 63, 0, 2 ** 8, 2 ** 16, 2 ** 32]
+
+
+def fixed_cases(tier):
+    """Per repr: small gapless and two-run enums whose MAX (resp. MIN) sits exactly on the limit of every integer type
+    that fits - wrong-width bound tests and limit special cases (one probe per repr)."""
+    return [{"limits_matrix": r} for r in M.REPRS]
+
+
+def run_limits_matrix(case):
+    out = J.Outcome()
+    r = case["limits_matrix"]
+    lo, hi = M.repr_domain(r)
+    modules, models = [], []
+    cfg = S.simple_config(["try_from", "TryFrom", "into", "Into", "MIN", "MAX", "next", "next_back"])
+    for L in NARROW_LIMITS:
+        for shape in ("ends_at", "starts_at", "ends_at_holes", "starts_at_holes"):
+            if shape == "ends_at":
+                vals = [L - 2, L - 1, L]
+            elif shape == "starts_at":
+                vals = [L, L + 1, L + 2]
+            elif shape == "ends_at_holes":
+                vals = [L - 9, L - 8, L - 1, L]
+            else:
+                vals = [L, L + 1, L + 7, L + 9]
+            if vals[0] < lo or vals[-1] > hi:
+                continue
+            spec = {"repr": r, "vis": "pub", "ident": "E", "enum_attrs": [],
+                    "variants": [{"ident": "V%d" % i, "disc": str(v)} for i, v in enumerate(vals)]}
+            modules.append((spec, cfg, {"kind": "plain"}))
+            models.append(M.RefEnum(spec))
+    sc = E.Script()
+    rnd = J.case_rng(case)
+    for k, m in enumerate(models):
+        C.sc_into(sc, k, m, cfg, list(range(m.n)))
+        C.sc_try_from(sc, k, m, cfg, C.boundary_values(m, rnd), sweep=False)
+        C.sc_minmax(sc, k, m, cfg)
+        C.sc_next(sc, k, m, cfg, list(range(m.n)))
+    J.run_script(out, modules, sc)
+    out.count("limits_matrix_enums", len(modules))
+    out.nontrivial = True
+    out.fingerprint = J.fp("limits_matrix", r)
+    out.sample = {"limits_matrix": r, "enums": len(modules), "script_lines": len(sc.lines)}
+    return out
+
+
 def run_case(case):
+    if "limits_matrix" in case:
+        return run_limits_matrix(case)
     out = J.Outcome()
     spec, cfg = case["spec"], case["cfg"]
     m = M.RefEnum(spec)
